@@ -6,11 +6,12 @@ pub mod c01;
 pub mod c02;
 pub mod c05;
 pub mod c06;
+pub mod c07;
 pub mod c10;
 
 /// run the real code for one request; None = unknown function
 pub fn run(r: &Req) -> Option<String> {
-    c01::run(r).or_else(|| c02::run(r)).or_else(|| c06::run(r)).or_else(|| c10::run(r))
+    c01::run(r).or_else(|| c02::run(r)).or_else(|| c06::run(r)).or_else(|| c07::run(r)).or_else(|| c10::run(r))
 }
 
 /// (request lines, whether the enumerated part was exhaustive over its stated bounds)
@@ -20,6 +21,7 @@ pub fn generate(prop: &str, tier: &str, rng: &mut Rng) -> (Vec<String>, bool) {
         "C02" => c02::generate(tier, rng),
         "C05" => c05::generate(tier, rng),
         "C06" => c06::generate(tier, rng),
+        "C07" => c07::generate(tier, rng),
         "C10" => c10::generate(tier, rng),
         _ => panic!("no generator for {prop}"),
     }
@@ -31,6 +33,7 @@ pub fn rule(prop: &str, tier: &str) -> String {
         "C02" => c02::rule(tier),
         "C05" => c05::rule(tier),
         "C06" => c06::rule(tier),
+        "C07" => c07::rule(tier),
         "C10" => c10::rule(tier),
         _ => String::new(),
     }
@@ -41,6 +44,7 @@ pub fn compare(prop: &str, r: &Req, imp: &str, model: &str) -> Option<bool> {
     match prop {
         "C05" => Some(c05::compare(r, imp, model)),
         "C06" => c06::compare(r, imp, model),
+        "C07" => c07::compare(r, imp, model),
         "C10" => Some(c10::compare(r, imp, model)),
         _ => None,
     }
@@ -69,6 +73,7 @@ pub fn valid_case(prop: &str, r: &Req) -> bool {
         "C02" => c02::valid_case(r),
         "C05" => c05::valid_case(r),
         "C06" => c06::valid_case(r),
+        "C07" => c07::valid_case(r),
         "C10" => c10::valid_case(r),
         _ => true,
     }
